@@ -969,6 +969,20 @@ def optimize(ck):
                 for rep in range(2):
                     runs.append((opt, OPT_SIMS[k % len(OPT_SIMS)]) + cmb)
                     k += 1
+    # nipy's own optimiser on a function whose gradient vanishes at x0 must return x0
+    from nipy.algorithms.optimize import fmin_steepest
+    for name, f, x0 in (("constant", lambda x: 0.0, np.zeros(2)),
+                        ("piecewise-constant", lambda x: float(np.sum(np.round(x) ** 2)), np.array([0.2, 0.1]))):
+        ck.count(("steepest-flat", name), nontrivial=True, bucket="optimize:fmin_steepest-flat")
+        try:
+            with contextlib.redirect_stdout(io.StringIO()):
+                r = np.asarray(fmin_steepest(f, x0, disp=False))
+            if not (np.all(np.isfinite(r)) and f(r) <= f(x0)):
+                ck.fail("steepest/zero-gradient-wrong", "fmin_steepest on a %s function returned %s from %s" % (name, r.tolist(), x0.tolist()),
+                        {"function": name, "x0": x0.tolist()})
+        except Exception as e:  # noqa
+            ck.fail("steepest/zero-gradient-raises", "fmin_steepest(f, x0) with f %s (zero gradient at x0=%s) raised %s: %s"
+                    % (name, x0.tolist(), type(e).__name__, str(e)[:120]), {"function": name, "x0": x0.tolist()})
     hr.configure_optimizer = cfg
     try:
         for n, (opt, sim, user_cb, verbose, start) in enumerate(runs):
@@ -1002,7 +1016,13 @@ def optimize(ck):
                     T = R.optimize(T0.copy(), optimizer=opt, **kw)
                     s1 = float(R.eval(T))
             except Exception as e:  # noqa
-                ck.fail("optimize/raises/%s" % opt, "optimize raised %s: %s" % (type(e).__name__, e), replay)
+                if opt == "steepest" and (type(e).__name__ == "BracketError" or "infs or NaNs" in str(e)):
+                    # fmin_steepest normalises the gradient without checking that it is non-zero
+                    ck.fail("steepest/zero-gradient-raises",
+                            "optimize(optimizer='steepest', %s, %s) from a %s start where the numerical gradient vanishes "
+                            "(already optimal, or piecewise-constant cost) raised %s: %s" % (sim, interp, start, type(e).__name__, e), replay)
+                else:
+                    ck.fail("optimize/raises/%s" % opt, "optimize raised %s: %s" % (type(e).__name__, e), replay)
                 continue
             ck.count(("opt", n, opt, sim, user_cb, verbose, start), nontrivial=True,
                      bucket="optimize:%s:%s" % (opt, start))
